@@ -95,6 +95,61 @@ theorem remove_noTrace_erase (cfg : Cfg) (dec : Bool) (st : PState) (h1 h2 : Lis
   rw [a, b]
   simp [List.eraseIdx_append_of_length_le]
 
+/-! ### Removing any number of such lines at once -/
+
+/-- A history whose lines are tagged; `true` marks a line that is no-trace *in the state it arrives in*
+    (the state reached by the whole history before it, tagged lines included). -/
+def Tagged (cfg : Cfg) (dec : Bool) : PState → List (Bytes × Bool) → Prop
+  | _, [] => True
+  | st, (l, true) :: rest => NoTrace cfg st l ∧ Tagged cfg dec st rest
+  | st, (l, false) :: rest => Tagged cfg dec (step cfg st l dec).1 rest
+
+/-- The history with the tagged lines removed. -/
+def kept (h : List (Bytes × Bool)) : List Bytes := (h.filter (fun x => !x.2)).map (·.1)
+
+/-- The results the full history produced for the lines that are kept. -/
+def keptResults : List (Bytes × Bool) → List (Res Frag) → List (Res Frag)
+  | (_, true) :: h, _ :: rs => keptResults h rs
+  | (_, false) :: h, r :: rs => r :: keptResults h rs
+  | _, _ => []
+
+theorem run_cons (cfg : Cfg) (dec : Bool) (st : PState) (l : Bytes) (ls : List Bytes) :
+    run cfg dec st (l :: ls) =
+      ((step cfg st l dec).2 :: (run cfg dec (step cfg st l dec).1 ls).1, (run cfg dec (step cfg st l dec).1 ls).2) := rfl
+
+/-- **Every history, every set of no-trace lines**: the results produced for all the other lines, and
+    the final parser state, are exactly those of the history from which the no-trace lines are removed. -/
+theorem remove_all_noTrace (cfg : Cfg) (dec : Bool) :
+    ∀ (h : List (Bytes × Bool)) (st : PState), Tagged cfg dec st h →
+      keptResults h (run cfg dec st (h.map (·.1))).1 = (run cfg dec st (kept h)).1 ∧
+      (run cfg dec st (h.map (·.1))).2 = (run cfg dec st (kept h)).2 := by
+  intro h
+  induction h with
+  | nil => intro st _; exact ⟨rfl, rfl⟩
+  | cons x rest ih =>
+    intro st ht
+    obtain ⟨l, b⟩ := x
+    cases b with
+    | true =>
+      obtain ⟨hnt, ht'⟩ := ht
+      have hs := noTrace_step cfg st l dec hnt
+      have hk : kept ((l, true) :: rest) = kept rest := by simp [kept]
+      simp only [List.map_cons, run_cons, keptResults, hk, hs]
+      exact ih st ht'
+    | false =>
+      have hk : kept ((l, false) :: rest) = l :: kept rest := by simp [kept]
+      have ht' : Tagged cfg dec (step cfg st l dec).1 rest := ht
+      obtain ⟨a, b⟩ := ih _ ht'
+      simp only [List.map_cons, run_cons, keptResults, hk, a, b]
+      constructor <;> first | rfl | trivial
+
+/-- Non-vacuity: a tagged history with one line of each cause exists (garbage, a sentence with a wrong
+    checksum) around an ordinary line. -/
+example : Tagged .std true PState.init [([0x78], true), ([], true)] := by
+  have h1 : parseNmeaSentence .std [0x78] = err (.nomError .tag) := rfl
+  have h2 : parseNmeaSentence .std [] = err (.nomError .tag) := rfl
+  exact ⟨NoTrace.form (by intro r h; rw [h1] at h; cases h), NoTrace.form (by intro r h; rw [h2] at h; cases h), trivial⟩
+
 /-- Distinct parser instances: in the model a parser's results are a function of its own state and
     its own lines only (`run` takes nothing else) — there is no shared state to model.  That the
     crate has none either is observed by the correspondence check (two parsers fed an interleaving). -/
